@@ -4,11 +4,13 @@ export GOFLAGS=-mod=mod GOPROXY=off GOSUMDB=off GOTOOLCHAIN=local
 cd "$(dirname "$0")" || exit 1
 mkdir -p .build
 rc=0
-./check --list | while read id pkg race; do
+./check --list | while read id pkg race plain; do
   if [ "$race" = race ]; then
     (cd harness && go test -c -race -tags verif -vet=off -o ../.build/$pkg-race.test ./$pkg) || echo "setup: race build of $pkg failed" >&2
   fi
-  (cd harness && go test -c -tags verif -vet=off -o ../.build/$pkg.test ./$pkg) || { echo "setup: build of $pkg failed" >&2; touch .build/setup-failed; }
+  if [ "$plain" = plain ]; then
+    (cd harness && go test -c -tags verif -vet=off -o ../.build/$pkg.test ./$pkg) || { echo "setup: build of $pkg failed" >&2; touch .build/setup-failed; }
+  fi
 done
 if [ -e .build/setup-failed ]; then rm -f .build/setup-failed; exit 1; fi
 exit 0
